@@ -22,6 +22,10 @@ Optional keys: "post" = follow-on ops applied to the indexed array (["getitem", 
 ["sum", axis], ["add", k], ["T"]), "hist" = {"chunks_first", "recompute"} (evaluate `.chunks` first;
 compute the ORIGINAL indexed collection again after the derived one), "config" = dask config.
 `run_case(case)` is deterministic from the dict alone (replay).
+Extension streams with their own case formats (dispatched on a marker key at replay): {"shf": 1, …} props_ext/c12_shuffle.py
+(take / shuffle / vindex layers), {"vix": 1, …} props_ext/c12_vindex.py (vindex on every subset of axes of rank 1-5 sources,
+MEMORY LAYOUT of integer / boolean indexers, 0-d indexers, what vindex must refuse).
+The random stream follows a stratified `schedule` (every generator family spread evenly over the run) under a wall-clock cap.
 """
 from __future__ import annotations
 
@@ -381,7 +385,9 @@ def _vindex_multi(case):
         y = d.vindex[build_index(case["index"], True)]
         nb = sum(np.ndim(np.asarray(s[1])) >= 1 for s in case["index"] if is_arrayish(s))
         bshape = np.broadcast_shapes(*(np.shape(np.asarray(s[1])) for s in case["index"] if is_arrayish(s)))
-        return y.ndim > len(bshape) and math.prod(y.numblocks) > 1 and nb >= 2
+        # (1-D point dimension: the final reshape is then the identity and the flat key list of VIndexArray reaches the
+        # collection; with a 2-D or higher point dimension the same inputs compute correctly and stay in the stream)
+        return len(bshape) == 1 and y.ndim > len(bshape) and math.prod(y.numblocks) > 1 and nb >= 2
     except Exception:
         return False
 
@@ -1451,17 +1457,43 @@ def report(ctx, case, probs, do_shrink=True):
                  f"{c['acc']} with index {c['index']} on shape {c['shape']} chunks {c['chunks']}: {kind}")
 
 
+def schedule(rng, n_cases):
+    """the order in which the generator families are drawn: every family gets its share of n_cases (proportional to its
+    weight, at least one) and its draws are spread EVENLY over the run (position (j + u) / quota, u random per family), so
+    that a run cut short by the wall-clock cap has explored every family in the same proportions as a full one"""
+    total = sum(w for _, w in GENS)
+    slots = []
+    for g, w in GENS:
+        q = max(1, round(n_cases * w / total))
+        u = rng.random()
+        slots += [((j + u) / q, g.__name__, g) for j in range(q)]
+    slots.sort(key=lambda t: t[:2])
+    return [g for _, _, g in slots]
+
+
 def search(ctx, n_cases):
+    import time
+
     rng = ctx.rng
-    gens = [g for g, _ in GENS]
-    weights = [w for _, w in GENS]
     done = 0
     skipped = 0
-    while done < n_cases:
-        g = rng.choices(gens, weights)[0]
+    # wall-clock cap of the random stream (loaded machines): the quick tier has to stay inside its budget; the
+    # stratified schedule keeps the family mix of a cut run equal to that of a full one
+    cap = ctx.scale(30.0, 1500.0)
+    t_start = time.time()
+    order = schedule(rng, n_cases)
+    capped = False
+    for g in order:
+        if done % 50 == 0 and time.time() - t_start > cap:
+            capped = True
+            break
         case = g(rng)
-        if avoid(case):
+        for _ in range(20):                  # members of a listed class are re-drawn from the same family
+            if not avoid(case):
+                break
             skipped += 1
+            case = g(rng)
+        else:
             continue
         probs = run_case(case)
         done += 1
@@ -1471,9 +1503,12 @@ def search(ctx, n_cases):
         if probs:
             report(ctx, case, probs)
     ctx.notes["search_cases"] = done
+    ctx.notes["search_planned"] = len(order)
+    if capped:
+        ctx.notes["search_capped_at_s"] = cap
     ctx.notes["search_skipped_known_class"] = skipped
+    ctx.notes["wall_random_stream_s"] = round(time.time() - t_start, 1)
     # the stratified sweep over size classes x element types (every run; thorough: several passes)
-    import time
 
     swept, t_sweep = 0, time.time()
     for _ in range(ctx.scale(1, 6)):
@@ -1884,6 +1919,9 @@ def run(ctx, replay=None):
     if replay is not None and isinstance(replay.get("case"), dict) and replay["case"].get("shf"):  # harness/props_ext/c12_shuffle.py
         from harness.props_ext import c12_shuffle
         return c12_shuffle.run(ctx, replay_case=replay["case"])
+    if replay is not None and isinstance(replay.get("case"), dict) and replay["case"].get("vix"):  # harness/props_ext/c12_vindex.py
+        from harness.props_ext import c12_vindex
+        return c12_vindex.run(ctx, replay_case=replay["case"])
     if replay is not None and isinstance(replay, dict) and isinstance(replay.get("case"), dict) and "case" in replay["case"]:
         case = replay["case"]["case"]
         if isinstance(case, dict):
@@ -1909,6 +1947,10 @@ def run(ctx, replay=None):
     t2 = time.time()
     c12_shuffle.run(ctx)
     ctx.notes["wall_shuffle_s"] = round(time.time() - t2, 1)
+    from harness.props_ext import c12_vindex  # vindex on every subset of axes (rank 1-5) / indexer memory layouts / 0-d indexers
+    t3 = time.time()
+    c12_vindex.run(ctx)
+    ctx.notes["wall_vindex_layout_s"] = round(time.time() - t3, 1)
     if ctx.disagreements:
         targeted(ctx)
     ctx.extra.pop("_shrunk", None)
